@@ -483,6 +483,59 @@ def opshape_programs():
     return out
 
 
+def combinator_programs():
+    """function-building builtins and operators: compose / flip / unpack / curry-function / function / expr, and the small
+    forms assert / defconst / get-default / bool? / symbol=; every form is one program under a catch-all handler with
+    effectful helper functions, so evaluation order, evaluation count and frames show in the transcript"""
+    D = [[S("defun"), S("inc"), [S("x")], [S("probe"), Q(S("inc")), S("x")], [S("+"), S("x"), 1]],
+         [S("defun"), S("dbl"), [S("x")], [S("probe"), Q(S("dbl")), S("x")], [S("*"), S("x"), 2]],
+         [S("defun"), S("sub"), [S("a"), S("b")], [S("probe"), Q(S("sub")), S("a"), S("b")], [S("-"), S("a"), S("b")]],
+         [S("defun"), S("opt"), [S("a"), S("&optional"), S("b")], [S("list"), S("a"), S("b")]],
+         [S("defun"), S("rst"), [S("a"), S("&rest"), S("r")], [S("cons"), S("a"), S("r")]],
+         [S("defun"), S("kw"), [S("a"), S("&key"), S("k")], [S("list"), S("a"), S("k")]]]
+    F = lambda *a: [S("funcall")] + list(a)
+    L = lambda fl, *body: [S("lambda"), fl] + list(body)
+    sm = [S("sorted-map"), STR("a"), 1, STR("k"), []]      # (key names the Machine ranks: a b c k x y z)
+    forms = [
+        F([S("compose"), S("inc"), S("dbl")], 3), F([S("compose"), Q(S("inc")), Q(S("dbl"))], 3), F([S("compose"), S("car"), S("rst")], 1, 2, 3),
+        F([S("compose"), S("car"), S("opt")], 1), F([S("compose"), S("car"), S("opt")], 1, 2), F([S("compose"), S("car"), S("kw")], 1),
+        [S("compose"), Q(S("inc")), Q(S("nosuch"))], [S("compose"), Q(S("nosuch")), Q(S("inc"))], [S("compose"), 5, S("inc")], [S("compose"), S("inc"), 5],
+        [S("compose"), S("if"), S("inc")], [S("compose"), S("inc"), S("if")], F([S("compose"), S("inc"), L([S("x")], [S("*"), S("x"), 3])], 2), F([S("compose"), S("-"), S("sub")], 5, 3),
+        F([S("compose"), S("inc"), S("car")], Q([1, 2])), F([S("compose"), S("list"), S("list")], 1, 2), F([S("compose"), S("inc"), S("inc")]), F([S("compose"), S("inc"), S("sub")], 1),
+        F([S("compose"), [S("compose"), S("inc"), S("dbl")], S("sub")], 9, 4), [S("map"), Q(S("list")), [S("compose"), S("inc"), S("dbl")], Q([1, 2])],
+        F([S("flip"), S("sub")], 1, 10), F([S("flip"), Q(S("sub"))], 1, 10), [S("flip"), S("inc")], F([S("flip"), S("-")], 1, 10), F([S("flip"), S("cons")], Q([2]), 1),
+        [S("flip"), 5], F([S("flip"), S("rst")], 1, 2), F([S("flip"), S("opt")], 1, 2), F([S("flip"), L([S("&rest"), S("r")], S("r"))], 1, 2), [S("flip"), Q(S("nosuch"))], [S("flip"), S("if")],
+        F([S("flip"), S("sub")], 1), [S("foldl"), [S("flip"), S("cons")], [], Q([1, 2, 3])],
+        [S("unpack"), S("sub"), Q([10, 3])], [S("unpack"), Q(S("sub")), [S("list"), 1, 2]], [S("unpack"), S("sub"), 5], [S("unpack"), S("+"), Q([1, 2, 3])], [S("unpack"), S("sub"), Q([1])], [S("unpack"), 5, Q([1])],
+        [S("list"), [S("bool?"), S("true")], [S("bool?"), Q(S("false"))], [S("bool?"), STR("true")], [S("bool?"), []], [S("bool?"), 1], [S("bool?"), Q(S("truex"))]],
+        [S("list"), [S("symbol="), Q(S("a")), Q(S("a"))], [S("symbol="), Q(S("a")), Q(S("b"))], [S("symbol="), S(":k"), S(":k")], [S("symbol="), Q(S("a")), S(":a")]], [S("symbol="), Q(S("a")), STR("a")], [S("symbol="), 1, Q(S("a"))],
+        F([S("function"), S("inc")], 1), [S("function"), S("nosuch")], [S("let"), [[S("inc"), L([S("x")], Q(S("local")))]], F([S("function"), S("inc")], 1)],
+        [S("let"), [[S("v"), 5]], [S("function"), S("v")]], [S("function"), 5], [S("function"), L([S("x")], S("x"))], [S("flet"), [[S("h"), [S("x")], [S("*"), S("x"), 9]]], F([S("function"), S("h")], 2)],
+        [S("function"), S("if")], [S("function"), S(":k")], F([S("function"), S("car")], Q([4, 5])), [S("map"), Q(S("list")), [S("function"), S("inc")], Q([1, 2])],
+        [S("assert"), [S("inc"), 1]], [S("assert"), [S("nil?"), [S("inc"), 1]]], [S("assert"), S("false"), STR("msg {}"), [S("inc"), 1]], [S("assert"), S("false"), STR("m {} {}"), [S("inc"), 1], [S("dbl"), 2]],
+        [S("assert"), S("true"), STR("m {}"), [S("inc"), 1]], [S("assert"), S("false"), 5], [S("assert"), [S("car"), 5]], [S("assert"), S("false"), STR("m {}"), [S("car"), 5], [S("inc"), 1]], [S("assert")],
+        [S("assert"), [], STR("no placeholders"), [S("inc"), 1]], [S("list"), [S("assert"), [S("inc"), 0]], [S("inc"), 5]],
+        [S("progn"), [S("defconst"), S("k1"), [S("inc"), 4]], [S("list"), S("k1"), S("k1")]], [S("defconst"), 5, 1], [S("defconst"), S("k2")], [S("progn"), [S("defconst"), S("k3"), 1, STR("doc")], S("k3")],
+        F([S("curry-function"), S("sub"), 10], 3), F([S("curry-function"), Q(S("sub")), 10], 3), F([S("curry-function"), S("rst"), 1, 2], 3, 4),
+        [S("let"), [[S("c"), [S("curry-function"), L([S("a"), S("b"), S("c")], [S("list"), S("a"), S("b"), S("c")]), [S("inc"), 0]]]], [S("list"), F(S("c"), 2, 3), F(S("c"), 4, 5)]],
+        F([S("curry-function"), S("sub")], 8, 2), F([S("curry-function"), S("sub"), 1, 2, 3]), [S("curry-function")], [S("map"), Q(S("list")), [S("curry-function"), S("sub"), 100], Q([1, 2])],
+        [S("get-default"), sm, STR("a"), [S("inc"), 5]], [S("get-default"), sm, STR("b"), [S("inc"), 5]], [S("get-default"), 5, STR("a"), 1], [S("get-default"), sm, STR("k"), 7],
+        [S("get-default"), [S("progn"), [S("inc"), 0], sm], [S("progn"), [S("inc"), 1], STR("z")], [S("inc"), 2]], [S("get-default"), sm, STR("a")],
+        F([S("expr"), [S("+"), S("%1"), S("%2")]], 1, 2), F([S("expr"), [S("list"), S("%"), S("%")]], 3), F([S("expr"), [S("list"), S("%2"), S("%&rest")]], 1, 2, 3, 4),
+        F([S("expr"), [S("list"), S("%1"), S("%&optional")]], 1), F([S("expr"), [S("list"), S("%1"), S("%&optional")]], 1, 2), F([S("expr"), S("%2")], 3, 4), F([S("expr"), Q(S("x"))]),
+        [S("expr"), [S("list"), S("%"), S("%1")]], [S("expr"), [S("list"), S("%1"), S("%")]], F([S("expr"), [S("list"), STR("%1"), 5]]), F([S("expr"), [S("list"), STR("%d"), 5]]),
+        F([S("expr"), [S("concat"), Q(S("string")), STR("%"), S("%1")]], STR("x")), F([S("expr"), [S("inc"), [S("inc"), S("%")]]], 1), F([S("expr"), [S("list"), Q(S("%")), S("%1")]], 7),
+        F([S("expr"), 5]), F([S("expr"), STR("s")]), F([S("expr"), [S("probe"), Q(S("x")), S("%3")]], 1, 2, 3), F([S("expr"), S("%")], 9), F([S("expr"), S("%&rest")], 1, 2),
+        F([S("expr"), [S("list"), S("%1")]], 1, 2), F([S("expr"), []]), [S("expr")], [S("expr"), 1, 2], [S("map"), Q(S("list")), [S("expr"), [S("*"), S("%"), S("%")]], Q([2, 3])],
+        [S("let"), [[S("%1"), 50]], F([S("expr"), [S("list"), S("%1"), S("%2")]], 1, 2)], F([S("expr"), [S("list"), S("%3"), S("%1")]], 1, 2, 3),
+    ]
+    H = [S("lambda"), [S("c"), S("&rest"), S("r")], [S("list"), Q(S("caught")), S("c")]]
+    out = []
+    for f in forms:
+        out.append(D + [[S("probe"), Q(S("r")), [S("handler-bind"), [[S("condition"), H]], f]], [S("probe"), Q(S("after")), [S("inc"), 0]]])
+    return out
+
+
 def run(tier):
     V = Verdict("C01", tier)
     work = Work("C01")
@@ -516,6 +569,8 @@ def _run(V, work, tier):
                 progs_.append(("closure-loop", closure_loop_program(w, mutual)))
     for f in opshape_programs():
         progs_.append(("opshape", f))
+    for f in combinator_programs():
+        progs_.append(("combinator", f))
     recs, drv = [], []
     for i, (kind, forms) in enumerate(progs_):
         recs.append(mach.prog_record(i, [forms], {}))
